@@ -45,6 +45,7 @@ type Gen struct {
 	stats map[string]int
 	cliFocus string // C15: the <id> the next `info` should look at
 	partHeavy    bool // this history is about partitions: half of its objects are partitions of all four types
+	afterCut     bool // the file has just been cut short: next, an object reaching beyond the new end is deleted with zeroing
 	noGrow       bool // the image's descriptor table lies behind its data section: the history does not add objects (the library lays new data out on the assumption that nothing follows the data section)
 	promoteLow   bool // slot 1 holds a system partition, slot 2 the primary one: promote the lower one
 	bigFirst     bool // this history starts with an object of over 1 MiB followed by small ones, and deletes it with zeroing
@@ -573,6 +574,24 @@ func (g *Gen) nextOp(f *sif.FileImage) *Op {
 			}
 		}
 	}
+	if g.afterCut {
+		g.afterCut = false
+		var beyond []uint32
+		end := int64(0)
+		f.WithDescriptors(func(d sif.Descriptor) bool {
+			if b, err := d.GetData(); err != nil || int64(len(b)) < d.Size() {
+				beyond = append(beyond, d.ID())
+			}
+			if d.Offset()+d.Size() > end {
+				end = d.Offset() + d.Size()
+			}
+			return false
+		})
+		if len(beyond) > 0 && r.Chance(2, 3) {
+			g.count("op:zeroing-delete-of-an-object-beyond-the-end")
+			return &Op{Kind: "del", T: g.topt(), Sel: Sel{Kind: "id", N: int64(pick(r, beyond))}, Zero: true, Compact: r.Chance(1, 4)}
+		}
+	}
 	if g.promoteLow && r.Chance(1, 2) {
 		g.promoteLow = false
 		g.count("op:promote-partition-below-primary")
@@ -705,6 +724,7 @@ func (g *Gen) nextOp(f *sif.FileImage) *Op {
 			})
 			if len(cuts) > 0 {
 				g.count("op:file-cut-short")
+				g.afterCut = true
 				return &Op{Kind: "ftrunc", Lib: true, N: pick(r, cuts)}
 			}
 		}
